@@ -40,6 +40,7 @@ def esc_text(rng):
 def program_lines(ctx, n_as, n_int, n_mer, n_esc):
     rng = ctx.rng
     lines = []
+    langgen.AMP_FORMS[0] = True
     for i in range(n_as):
         lines.append(f"tokrt a{i} applesoft {rng.choice(ADDRS)} {hexs(langgen.applesoft_program(rng).encode())}")
     for i in range(n_int):
@@ -53,6 +54,7 @@ def program_lines(ctx, n_as, n_int, n_mer, n_esc):
             lines.append(f"tokrt e{i} applesoft {rng.choice(ADDRS)} {hexs(langgen.applesoft_program(rng, nlines=rng.choice([1, 2, 3])).encode())}")
     finally:
         langgen.ESC_LEVEL[0] = old
+        langgen.AMP_FORMS[0] = False
     # escapes in Integer strings and REM (the generator for Integer has none): splice escape pieces into string literals
     for i in range(n_esc):
         src = langgen.integer_program(rng, nlines=rng.choice([1, 2, 3]))
@@ -62,7 +64,7 @@ def program_lines(ctx, n_as, n_int, n_mer, n_esc):
             return m.group(0)
         src = re.sub(r'"([^"\n]*)"', repl, src)
         if rng.random() < 0.3:
-            src = src.rstrip('\n') + '\n' + f"{32000 + i % 700} REM " + langgen.esc_mix(rng, 'note') + rng.choice(['', '\\xe1\\xfa', '\\xdc\\xf841']) + '\n'
+            src = src.rstrip('\n') + '\n' + f"{32000 + i % 700} REM " + langgen.esc_mix(rng, 'note') + rng.choice(['', '\\xe1\\xfa', '\\xdc\\xf841', '\\xa0', ' \\xa0', '\\x89']) + '\n'
         lines.append(f"tokrt j{i} integer 0 {hexs(src.encode())}")
     return lines
 
@@ -106,6 +108,15 @@ def boundary_lines(ctx):
         add('applesoft', 2049, s)
     for s in ['10 PRINT "\\x01"\n', '10 REM \\x01\n', '10 PRINT "\\x29"\n', '10 PRINT "\\xa2"\n', '10 PRINT "\\xe1"\n', '10 REM \\xe1\\xfa\n', '10 PRINT "\\xdc\\xf8"\n', '10 PRINT "\\xdc\\xf841"\n', '10 REM \\xdc\\xf841\n']:
         add('integer', 0, s)
+    # escapes that yield a byte with a meaning of its own in a DATA statement, blanks where the listing would drop them, REM and DATA as
+    # names of ampersand commands, text that is not ASCII in Merlin comments
+    for s in ['10 DATA A\\x3aB\n', '10 DATA "A",\\x20\n', '10 DATA A\\x2c  :REM X\n', '10 DATA \\x20\n', '10 DATA "S"\\x20:PRINT\n', '10 & DATA A+B\n', '10 & REM A TO B\n',
+              '10 & REM X:PRINT 1\n', '44800 &REM\n', '10 REM X\\x20\n']:
+        add('applesoft', 2049, s)
+    for s in ['10 REM X\\xa0\n', '10 REM\\xa0\n', '10 REM X\\x89\n', '10 REM X\\xa0\\xa0\n', '10 PRINT "X\\xa0"\n']:
+        add('integer', 0, s)
+    for s in ['; \u00e0 b\n', ' LDA #1 ; \u010d x\n', '* caf\u00e9\n']:
+        add('merlin', 0, s)
     # long lines
     add('applesoft', 2049, "10 REM " + "A" * 300 + "\n20 END\n")
     add('applesoft', 2049, "10 PRINT \"" + "A" * 300 + "\"\n20 END\n")
